@@ -338,6 +338,7 @@ class WARCRecorder(object):
             before_offset = 0
 
         journal_filename = self._warc_filename + '-wpullinc'
+        rollback_failed = False
 
         try:
             with open(journal_filename, 'w') as file:
@@ -352,12 +353,25 @@ class WARCRecorder(object):
                 _('Rolling back file {filename} to length {length}.'),
                 filename=self._warc_filename, length=before_offset
             )
-            with open(self._warc_filename, mode='r+b') as out_file:
-                out_file.truncate(before_offset)
+            # If the file cannot be rolled back, the journal is kept so
+            # that the incomplete file is noticed on the next run.
+            rollback_failed = True
+
+            try:
+                out_file = open(self._warc_filename, mode='r+b')
+            except FileNotFoundError:
+                # The file was never created; there is nothing to cut.
+                pass
+            else:
+                with out_file:
+                    out_file.truncate(before_offset)
+
+            rollback_failed = False
 
             raise error
         finally:
-            os.remove(journal_filename)
+            if not rollback_failed:
+                os.remove(journal_filename)
 
         after_offset = os.path.getsize(self._warc_filename)
 
